@@ -341,6 +341,9 @@ class PlainQuantity(Generic[MagnitudeT], PrettyIPython, SharedRegistryObject):
         return not bool(tmp.dimensionality)
 
     _dimensionality: UnitsContainerT | None = None
+    #: the units container `_dimensionality` was computed for (units are
+    #: replaced, never mutated, by the in-place operators)
+    _dimensionality_units: UnitsContainerT | None = None
 
     @property
     def dimensionality(self) -> UnitsContainerT:
@@ -350,8 +353,9 @@ class PlainQuantity(Generic[MagnitudeT], PrettyIPython, SharedRegistryObject):
         dict
             Dimensionality of the PlainQuantity, e.g. ``{length: 1, time: -1}``
         """
-        if self._dimensionality is None:
+        if self._dimensionality is None or self._dimensionality_units is not self._units:
             self._dimensionality = self._REGISTRY._get_dimensionality(self._units)
+            self._dimensionality_units = self._units
 
         return self._dimensionality
 
